@@ -152,12 +152,24 @@ def pat_is_wild(p):
 
 
 def is_panic_body(e):
-    """body is a bare unreachable!/unimplemented!/panic!/todo!"""
+    """body is a bare unreachable!/unimplemented!/panic!/todo! (possibly wrapped in single-expression blocks)"""
     e0 = e
-    while is_node(e0) and e0[0] == "block" and len(e0[1]) + (1 if e0[2] is not None else 0) == 1:
-        e0 = e0[1][0] if e0[1] else e0[2]
-    if is_node(e0) and e0[0] == "macro" and e0[1].rstrip("!").split("::")[-1] in (
-            "unreachable", "unimplemented", "panic", "todo"):
+    for _ in range(8):
+        if is_node(e0) and e0[0] == "block" and len(e0[1]) + (1 if e0[2] is not None else 0) == 1:
+            e0 = e0[1][0] if e0[1] else e0[2]
+            continue
+        if is_node(e0) and e0[0] == "macro":
+            nm = e0[1].rstrip("!").split("::")[-1]
+            for suf in ("_2021", "_2015"):
+                if nm.endswith(suf):
+                    nm = nm[:-len(suf)]
+            if nm in ("unreachable", "unimplemented", "panic", "todo"):
+                return True
+            e0 = e0[2]
+            continue
+        break
+    if is_node(e0) and e0[0] == "call" and is_node(e0[2]) and e0[2][0] == "def" and (
+            e0[2][2].startswith("core::panicking::") or e0[2][2].startswith("std::rt::begin_panic")):
         return True
     return False
 
